@@ -3,7 +3,7 @@ C13 (service slice) — the end block of the service scheduler never halts and h
 queue entry exactly once; queue entries and the contexts awaiting them correspond.
 Headline theorems about the model `Irismod.Service` (every state, every operation, every history).
 -/
-import Irismod.Proofs.ServiceWF
+import Irismod.Proofs.ServiceQueue
 
 namespace Irismod.Props.C13S
 open Irismod Irismod.Sdk Irismod.Service Irismod.Spec.C13S Irismod.Proofs.Service
@@ -123,5 +123,16 @@ theorem new_batch_handler_local {s : State} (hs : WF s) (id : CtxId) (hq : (s.he
     (∀ e, e ∈ (newBatch s id).newQ → e ∈ s.newQ) ∧
     (∀ id', id' ≠ id → AMap.get? (newBatch s id).newH id' = AMap.get? s.newH id') :=
   ⟨(WF_newBatch hs id (hs.newM.1 _ _ hq)).2.2.1, (WF_newBatch hs id (hs.newM.1 _ _ hq)).2.2.2⟩
+
+/-- every new-batch entry of the current height is handled in this block, whatever its handler decides
+(since /repo f0f40e8 also when no exchange rate is available): none is left, none is added -/
+theorem new_batch_entries_processed (s : State) (e : Int × CtxId) (h : e ∈ (newPhase s).newQ) :
+    e ∈ s.newQ ∧ e.1 ≠ s.height :=
+  newPhase_newQ s e h
+
+/-- handling one new-batch entry removes exactly that entry -/
+theorem new_batch_removes_exactly_its_entry (s : State) (id : CtxId) :
+    (newBatch s id).newQ = s.newQ.filter (fun y => decide (y ≠ (s.height, id))) :=
+  newBatch_newQ s id
 
 end Irismod.Props.C13S
